@@ -42,11 +42,15 @@ structure LockFacts where
   resetConf : Option Mode
   deriving DecidableEq, Repr
 
-/-- The locking of the tree the model was written against. -/
+/-- The locking of the current tree (after the fix that takes `confMu` in
+`handleStatsReset`). -/
 def LockFacts.real : LockFacts :=
   { updConf := some .W, updCurr := some .W, flushConf := some .W, flushCurr := some .W,
     readConf := some .R, loadCurr := some .R, setDaysConf := some .W, putConfConf := some .W,
-    clearCurr := some .W, resetConf := none }
+    clearCurr := some .W, resetConf := some .W }
+
+/-- The locking before that fix: `handleStatsReset` called `clear()` without `confMu`. -/
+def LockFacts.beforeResetFix : LockFacts := { LockFacts.real with resetConf := none }
 
 /-- Thread-local variables of the programs. -/
 structure Loc where
